@@ -9,6 +9,8 @@ from . import c04, c05, c09, c10, c11, c12, c13, c14, c02
 
 
 def check(ctx):
+    from ..lib import discarded_results
+    ctx.sub(discarded_results, 'C08.sizing', ('qstrader/portcon/', 'qstrader/broker/', 'qstrader/data/'), 'each asset is sized, filled and priced with its own figures')
     ctx.sub(sizing_inputs)
     ctx.sub(sizer_selection)
     ctx.sub(execution)
